@@ -85,6 +85,7 @@ class NaiveForecaster(_OptionalForecastingHorizonMixin, _BaseWindowForecaster):
         self._set_fh(fh)
 
         if self.strategy == "last":
+            self.sp_ = check_sp(self.sp)
             if self.sp == 1:
                 if self.window_length is not None:
                     warn(
@@ -95,8 +96,6 @@ class NaiveForecaster(_OptionalForecastingHorizonMixin, _BaseWindowForecaster):
                 self.window_length_ = 1
 
             else:
-                self.sp_ = check_sp(self.sp)
-
                 # window length we need for forecasts is just the
                 # length of seasonal periodicity
                 self.window_length_ = self.sp_
